@@ -631,6 +631,25 @@ def eval_type_writer(c, f, case):
             if a[0] != "bool":
                 raise _Unknown("non-bool operand")
             return ("bool", not a[1])
+        if k == "match":
+            # `let (index, data) = match tpe { .. Type::Array(a) => (a.index_width, a.data_width) }`
+            v = val(e["scrut"])
+            for arm in e["arms"]:
+                if "guard" in arm:
+                    raise _Unknown("guard")
+                if bind(arm["pat"], v):
+                    return val(arm["body"])
+            raise _Unknown("no arm matches")
+        if k == "if" and "else" in e:
+            cv = val(e["cond"])
+            if cv[0] != "bool":
+                raise _Unknown("condition")
+            return val(e["then"] if cv[1] else e["else"])
+        if k == "blockexpr" and "tail" in e["b"] and not [s_ for s_ in e["b"]["stmts"] if s_.get("k") != "let"]:
+            for s_ in e["b"]["stmts"]:
+                if "init" in s_:
+                    bind(s_["pat"], val(s_["init"]))
+            return val(e["b"]["tail"])
         raise _Unknown("expression " + str(k))
 
     def _raise(m):
@@ -664,6 +683,15 @@ def eval_type_writer(c, f, case):
             return True
         if k == "por":
             return any(bind(a, v) for a in pat["alts"])
+        if k == "pstruct" and v[0] == "arr":
+            # `ArrayType { index_width, data_width }`
+            for fl_ in pat["fields"]:
+                fv = {"index_width": v[1], "data_width": v[2]}.get(fl_["name"])
+                if fv is None:
+                    raise _Unknown("field " + str(fl_["name"]))
+                if not bind(fl_["pat"], fv):
+                    return False
+            return True
         raise _Unknown("pattern " + str(k))
 
     written = []          # (format shape, placeholder roles) of every write executed, in order
